@@ -48,7 +48,7 @@ impl Opts {
             .and_then(|s| s.parse::<i128>().ok())
             .map(|v| v as u64)
             .unwrap_or(20260925);
-        let mut out = PathBuf::from("/verif/evidence/tmp/out.json");
+        let mut out = PathBuf::from(format!("{}/tmp/out.json", crate::evidence_dir()));
         let mut model = None;
         let mut replay = None;
         let mut extra = vec![];
